@@ -97,7 +97,11 @@ def service_cases(tier, inst):
     for off in (0.05, 0.005):
         yield {"streams": [(T[2], T[2], -cpu * inst[1], 0.0), (T[2] - off, T[3], 2 * cpu * (T[3] - T[2]), 0.0)], "zones": ["A", "A"]}
         yield {"streams": [(T[1], T[1], cpu * inst[1], 0.0), (T[1] + off, T[0], 2 * cpu * (T[1] - T[0]), 0.0)], "zones": ["A", "A"]}
-    for e in (4e-7, 5e-6, 2e-5, 1e-4):
+    # ... and within a few multiples of the library's 1e-6 K grid of it: the latent stream's heat capacity flow is 100 x duty per K
+    for off in (1e-6, 2e-6, 5e-6, 1e-5, 2e-5):
+        yield {"streams": [(T[2], T[2], -cpu * inst[1], 0.0), (T[2] - off, T[3], 2 * cpu * (T[3] - T[2]), 0.0)], "zones": ["A", "A"]}
+        yield {"streams": [(T[1], T[1], cpu * inst[1], 0.0), (T[3], T[1] + off, 2 * cpu * (T[3] - T[1]), 0.0)], "zones": ["A", "A"]}
+    for e in (4e-7, 6e-7, 1e-6, 1.1e-6, 2e-6, 5e-6, 2e-5, 1e-4):
         for sgn in (1, -1):
             d = sgn * e
             yield {"streams": [(T[3], T[1], cpu * (T[3] - T[1]), 0.0), (T[1] + d, T[3] + d, 2 * cpu * (T[3] - T[1]), 0.0)], "zones": ["A", "A"]}
